@@ -69,6 +69,7 @@ func main() {
 			fn := P.Func(spec)
 			if fn == nil {
 				fmt.Println("unresolved:", spec)
+				debugFunc(P, spec)
 				continue
 			}
 			ir.Dump(os.Stdout, P.Fset, fn)
